@@ -86,3 +86,75 @@ def resp_family(tier):
         os.remove(f)
     cache_put(key, res)
     return res
+
+
+# ---------------------------------------------------------------------------------------------
+# routing family (C02, C14): full in-process stack
+# ---------------------------------------------------------------------------------------------
+def routing_family(tier):
+    sd = seed()
+    key = "routing_%s_%s_%d" % (tree_hash(), tier, sd)
+    cached = cache_get(key)
+    if cached:
+        log("routing family: cache hit")
+        return cached
+    t0 = time.time()
+    build_harness()
+    mc = None
+    from vlib import SPEC
+    if os.path.exists(os.path.join(SPEC, "Routing_MC.cfg")):
+        mc = tlc_model_check("routing", "Routing_MC.tla", "Routing_MC.cfg", workers=8, timeout=1500, xmx="8g", extra="")
+    d = fresh_dir(os.path.join(WORK, "routing_" + tier))
+    parts = 12 if tier == "quick" else 14
+    per = 3 if tier == "quick" else 40
+    cmds, files = [], []
+    for p in range(parts):
+        f = os.path.join(d, "runs_%02d.ndjson" % p)
+        allslots = " --all-slots" if (tier == "thorough" and p >= parts - 2) else ""
+        n = per if not allslots else 3
+        cmds.append("%s routing-runs --out %s --count %d --seed %d%s" % (UVERIF, f, n, sd * 131 + p, allslots))
+        files.append(f)
+    rc, out = _run_cmds(cmds, timeout=3300)
+    if rc != 0:
+        raise ToolError("routing rig failed: " + out[-2000:])
+    verdicts = validate_shards("Routing_Trace.tla", "Routing_Trace.cfg", files, jobs=14, timeout=3300)
+    viols, events, skipped = [], 0, 0
+    for v in verdicts:
+        events += v["n"]
+        skipped += v.get("skipped", 0)
+        if not v["consumed"]:
+            raise ToolError("Routing_Trace did not consume %s\n%s" % (v["shard"], v.get("tlc_tail", "")))
+        lines = None
+        for x in v["viol"]:
+            if lines is None:
+                lines = open(v["shard"]).read().splitlines()
+            e = json.loads(lines[x["line"] - 1])
+            # the run's header (seed etc.)
+            j = x["line"] - 1
+            while j > 0 and json.loads(lines[j]).get("kind") != "reset":
+                j -= 1
+            viols.append({"mon": x["mon"], "case": e, "cls": e.get("phase", "?"), "reset": json.loads(lines[j])})
+    kinds, phases = {}, {}
+    nontrivial = 0
+    samples = []
+    runs = 0
+    for f in files:
+        with open(f) as fh:
+            for line in fh:
+                e = json.loads(line)
+                kinds[e["kind"]] = kinds.get(e["kind"], 0) + 1
+                if e["kind"] == "reset":
+                    runs += 1
+                if e["kind"] in ("probe", "adv"):
+                    phases[e["phase"]] = phases.get(e["phase"], 0) + 1
+                    if e["phase"] != "stable" or (e["kind"] == "probe" and e["outcome"]["redirects"] > 0):
+                        nontrivial += 1
+                    if len(samples) < 3 and e["phase"] == "running":
+                        samples.append(e)
+    res = {"tier": tier, "seed": sd, "wall_s": time.time() - t0, "cases": kinds.get("probe", 0) + kinds.get("adv", 0),
+           "runs": runs, "kinds": kinds, "phases": phases, "nontrivial": nontrivial, "skipped_unsynced": skipped,
+           "violations": viols[:300], "violation_count": len(viols), "samples": samples, "mc": mc}
+    for f in files:
+        os.remove(f)
+    cache_put(key, res)
+    return res
